@@ -66,6 +66,7 @@ var scanRules = map[string]scanRule{
 	},
 	"mark-flow": func(a *scandfa.Analysis) []*report.RuleResult { r, _ := a.MarkFlow(); return []*report.RuleResult{r} },
 	"newline-neutral": func(a *scandfa.Analysis) []*report.RuleResult { return []*report.RuleResult{a.NewlineNeutral()} },
+	"token-bounds": func(a *scandfa.Analysis) []*report.RuleResult { return []*report.RuleResult{a.TokenBounds()} },
 	"no-rescan":        func(a *scandfa.Analysis) []*report.RuleResult { return []*report.RuleResult{a.NoRescan()} },
 	"eof-final":        func(a *scandfa.Analysis) []*report.RuleResult { return []*report.RuleResult{a.EofFinal()} },
 	"num-classify":     func(a *scandfa.Analysis) []*report.RuleResult { return []*report.RuleResult{a.NumClassify()} },
@@ -145,7 +146,7 @@ func init() {
 	properties["SC"] = &Property{ // development aid: every scanner rule at once (not registered in the manifest)
 		Level: "other", Engine: "scandfa",
 		Run: func(c *Ctx) {
-			c.scanRun("token-rules", "newline-action", "newline-siblings", "newline-symmetry", "case-fold", "trivia-stay", "trivia-siblings", "idx-guard", "mark-flow", "newline-neutral", "progress", "eof-final", "no-rescan", "num-classify", "pred-spec")
+			c.scanRun("token-rules", "newline-action", "newline-siblings", "newline-symmetry", "case-fold", "trivia-stay", "trivia-siblings", "idx-guard", "token-bounds", "mark-flow", "newline-neutral", "progress", "eof-final", "no-rescan", "num-classify", "pred-spec")
 			c.ssaScan("pred-pure", "buf-readonly", "scanner-helpers")
 		},
 	}
